@@ -145,6 +145,17 @@ def panic_obligation(name, h, scope, overlay):
     return Obligation("K:" + name, "kani", name, "ok", {"checks": h.checks_total, "panics_at": ["%s:%s %s" % (c["file"], c["line"], c["desc"]) for c in h.failed_checks[:3]]}, h.time_s, scope)
 
 
+def _jobs(pl, tier):
+    """Parallelism of the Kani run: properties whose triples need several GB each run fewer of them at a time
+    (an out-of-memory kill of one CBMC process takes the whole cargo-kani run down)."""
+    j = pl.get("kani_jobs")
+    if isinstance(j, dict):
+        j = j.get(tier)
+    if j:
+        return max(1, min(int(j), common.ncpu()))
+    return None
+
+
 def run_kani_set(pl, tier, obligations, assumptions, meta, filters=None, tag="k"):
     files = [os.path.join(common.CONTRACTS, "kani", f) for f in pl.get("kani_units", [])]
     if not files:
@@ -169,11 +180,11 @@ def run_kani_set(pl, tier, obligations, assumptions, meta, filters=None, tag="k"
     ht = pl.get("harness_timeout", {}).get(tier, 300 if tier == "quick" else 1800)
     res, text, wall, rc, cmd = kbackend.run_kani(ov, filters, harness_timeout=ht,
                                                  total_timeout=pl.get("total_timeout", {}).get(tier, 3600 if tier == "quick" else 6 * 3600),
-                                                 features=pl.get("kani_features"), jobs=pl.get("kani_jobs"))
+                                                 features=pl.get("kani_features"), jobs=_jobs(pl, tier))
     meta["kani_runs"].append({"cmd": cmd, "wall_s": round(wall, 1), "rc": rc, "harnesses": len(res)})
     # harnesses that produced no verdict for a resource reason (CBMC out of memory under parallel load, or missing from
     # the interleaved output) are run once more, two at a time
-    retry = [n for n in sorted(expected) if n not in res or (res[n].status == "error" and re.search(r"out of memory|Killed|signal", res[n].text))]
+    retry = [n for n in sorted(expected) if n not in res or (res[n].status == "error" and (re.search(r"out of memory|Killed|signal", res[n].text) or "VERIFICATION" not in res[n].text))]
     if res and retry:
         # (the Kani driver itself can die when the machine runs out of memory; everything it had not reported yet is retried)
         res2, text2, wall2, rc2, cmd2 = kbackend.run_kani(ov, retry, harness_timeout=ht, total_timeout=pl.get("total_timeout", {}).get(tier, 3600 if tier == "quick" else 6 * 3600),
